@@ -1,10 +1,23 @@
 use crate::engine::{Ctx, Report};
 
 pub mod c01;
+pub mod c02_c03;
+pub mod c04;
+pub mod c05;
+pub mod c06;
+#[cfg(feature = "std")]
+pub mod c13;
 
 pub fn dispatch(ctx: &Ctx, rep: &mut Report) -> bool {
     match ctx.property.as_str() {
         "C01" => c01::run(ctx, rep),
+        "C02" => c02_c03::run(ctx, rep, c02_c03::Which::C02),
+        "C03" => c02_c03::run(ctx, rep, c02_c03::Which::C03),
+        "C04" => c04::run(ctx, rep),
+        "C05" => c05::run(ctx, rep),
+        "C06" => c06::run(ctx, rep),
+        #[cfg(feature = "std")]
+        "C13" => c13::run(ctx, rep),
         _ => return false,
     }
     true
